@@ -27,3 +27,23 @@ def gen_Dfs(rng):
     for n in rng.sample(NODES, rng.randrange(0, len(NODES) + 1)):
         adjacency[n] = [rng.choice(NODES) for _ in range(rng.randrange(0, 4))]
     return dict(seeds=seeds, adjacency=adjacency)
+
+
+def gen_BuildStepGraphReach(rng):
+    """step configurations like the ones of the validate_graph contract (same generator), plus catch_error steps"""
+    from natives import validate_gen as vg
+    base = vg.gen_ValidateEventConnectivity(rng) if hasattr(vg, "gen_ValidateEventConnectivity") else None
+    args = None
+    for name in ("gen_ValidateGraph", "gen_ValidateEventConnectivity"):
+        if hasattr(vg, name):
+            args = getattr(vg, name)(rng)
+            if "steps" in args and "start_event_class" in args:
+                break
+    steps = args["steps"]
+    UNIVERSE["type"] = list(vg.UNIVERSE["type"]) if hasattr(vg, "UNIVERSE") else UNIVERSE.get("type", [])
+    UNIVERSE["str"] = list(vg.NAMES) + ["ghost"]
+    ce = None
+    r = rng.random()
+    if r < 0.4:
+        ce = rng.sample(list(steps) + ["ghost"], rng.randrange(0, min(3, len(steps) + 1)))
+    return dict(steps=steps, start_event_class=args["start_event_class"], catch_error_steps=ce)
